@@ -189,7 +189,8 @@ def c03(run: Any) -> list[Finding]:
             out.append((f"C03 {sc} runs flat-or-clone-source {_short(ev['bridged'])}", f"{ev['worker']} executed a flat test or a clone source: {ev['shortname']}", {}))
         key = (ev["bridged"], ev["scope"])
         counts[key] = counts.get(key, 0) + 1
-        limit = max(1, int(ev["params"].get("max_tries", 1) or 1))
+        # the configured budget (the run's own setting where given, else the test's parameter)
+        limit = max(1, int(run.scenario.params.get("max_tries", ev["params"].get("max_tries", 1)) or 1))
         if counts[key] > limit:
             group = creation_group(ev)
             overlapped = any(
